@@ -569,6 +569,8 @@ class Function:
                 in_switch = True
             joined.append(st)
         for st in joined:
+            if '@llvm.dbg.' in st and st.lstrip().startswith('call void @llvm.dbg.'):
+                continue
             m = re.match(r'^([\w.$\-]+|"[^"]*"):', st)
             if m and not st.startswith('%'):
                 lab = m.group(1)
